@@ -2040,6 +2040,11 @@ unsafe fn k_enter(
                         // Returns true once the condition may hold, false on timeout.
                         if !h(ring, min_complete, timeout.is_some()) {
                             wait_ret = if timeout.is_some() { -libc::ETIME } else { -libc::EINTR };
+                            if timeout.is_none() {
+                                // Nothing could end this wait: it is ended from outside so that the execution can be judged.
+                                let mut g = lock();
+                                g.as_mut().unwrap().would_block += 1;
+                            }
                             break;
                         }
                     }
